@@ -3,3 +3,7 @@ reg("C14", "fault_enumeration", "DESIGN 5.1 C14",
     "Real sync and async RPC clients run over a simulated transport; for a catalogue of replies every partition into <=3 chunks, every EOF/RST byte offset and PRNG finer partitions are injected; outcome must equal the one-piece outcome (also checked against an independent decoder) and EOF/RST must raise without spinning or blocking. Exhaustive over the stated small space, sampled beyond.",
     "trusted: ref.rpce as independent decoder; the simulated socket models recv/recv_into/readexactly semantics of ordered reliable byte streams; StubCtx is a stub security context",
     T + ": enumerated segmentation / stream-end faults on a simulated transport")
+reg("C15", "fault_enumeration", "DESIGN 5.1 C15",
+    "The real client handshake (both flavours; raw bind()+request() and the real _get_key with its EPM hop) runs against a scripted Byzantine server; the structured script family (every ack sequence over result vector x header-sign x token, every terminal at every depth, for context shapes of 1..4 legs with/without empty last token) is enumerated completely and PRNG scripts over the full alphabet are sampled; history clauses (a)-(f) are judged on the client's PDUs as decoded by an independent receiver and on the calls the scripted security context recorded.",
+    "trusted: ref.rpce decoder/encoders; StubCtx is a stub security context; ambiguous protocol corners (mixed header-sign flags, cross-type acks, results in alter_context_resp) are recorded, not judged",
+    T + ": scripted Byzantine peer, enumerated server scripts, history oracle")
